@@ -352,7 +352,129 @@ def rule_h(ctx: Ctx, env: EnvA):
                construct=f"{sl.fi.qualname}:{key}:direction:{','.join(sorted(bad))}")
 
 
+def _registry(ctx: Ctx, relpath: str, fn: str):
+    """env name -> embedding class, from the dict literal inside the registry function"""
+    import ast as _ast
+    fi = ctx.repo.get_function(relpath, fn)
+    out = {}
+    for n in _ast.walk(fi.node):
+        if isinstance(n, _ast.Dict) and len(n.keys) > 5 and all(isinstance(k, _ast.Constant) for k in n.keys):
+            for k, v in zip(n.keys, n.values):
+                if isinstance(v, _ast.Name):
+                    r = ctx.repo.resolve_global(fi.module, v.id)
+                    if r is not None and r[0] == "class":
+                        out[k.value] = r[1]
+    return out
+
+
+def _td_reads(ctx: Ctx, cls) -> set:
+    import ast as _ast
+    keys = set()
+    for c in ctx.repo.mro(cls):
+        if isinstance(c, str):
+            continue
+        for m in c.methods.values():
+            if ctx.repo.resolve_method(cls, m.name) is not m:
+                continue
+            for n in _ast.walk(m.node):
+                if isinstance(n, _ast.Subscript) and isinstance(n.value, _ast.Name) and n.value.id == "td" and isinstance(n.slice, _ast.Constant) and isinstance(n.slice.value, str) \
+                        and isinstance(n.ctx, _ast.Load):
+                    keys.add(n.slice.value)
+    return keys
+
+
+def rule_g(ctx: Ctx, env: EnvA, registries):
+    """C01.g closed state vocabulary: every key that _step, the mask, the reward, the checker and
+    the env's registered policy embeddings read from the state is provided by _reset or written by
+    _step; the row-uniform step counter `i` advances by exactly one per step."""
+    rs, st = env.slot("_reset"), env.slot("_step")
+    provided = set(rs.td.cells) | {"action"}
+    written = {k for k, v in st.td.cells.items() if not (v.op == "cell0" and v.args[1] == k)}
+    for meth in ("get_action_mask", "_get_reward", "check_solution_validity"):
+        if meth != "_get_reward" and not env.own(meth):
+            continue
+        sl = env.slot(meth)
+        if sl is not None and sl.td is not None:
+            written |= {k for k, v in sl.td.cells.items() if not (v.op == "cell0" and v.args[1] == k)}
+    need = {}
+    for meth in ("_step", "get_action_mask", "_get_reward", "check_solution_validity"):
+        if meth in ("get_action_mask", "check_solution_validity") and not env.own(meth):
+            continue
+        sl = env.slot(meth)
+        if sl is None or sl.td is None:
+            continue
+        for uid, key, val, node in sl.fr.reads:
+            if isinstance(val, vg.S) and val.op == "cell0" and key != "*":
+                need.setdefault(key, set()).add(f"{env.name}.{meth}")
+    name_attr = ctx.repo.resolve_class_attr(env.cls, "name")
+    ename = name_attr[0].value if name_attr and hasattr(name_attr[0], "value") else None
+    for rname, reg in registries.items():
+        # reported only: a policy embedding reading an absent key fails loudly (KeyError) and is outside
+        # the property's statement about the environment (e.g. the `atsp` entry of the init registry
+        # points to TSPInitEmbedding, which reads `locs`)
+        c = reg.get(ename)
+        if c is not None:
+            absent = sorted(k for k in _td_reads(ctx, c) if k not in provided and k not in written)
+            if absent:
+                ctx.note(f"{env.name}: {rname} embedding {c.name} reads {absent}, which the env state does not contain (not armed)")
+    missing = {k: sorted(v) for k, v in need.items() if k not in provided and k not in written}
+    ctx.ob("C01.g", f"{env.name}:state-vocabulary", not missing, rs.where,
+           f"{len(need)} keys read by step/mask/reward/checker/embeddings, all provided by _reset ({len(provided)} keys) or written by _step" if not missing else
+           f"keys read but never provided: {missing}",
+           construct=f"{env.name}:state-keys:{','.join(sorted(missing))}")
+    if "i" in rs.td.cells:
+        inc = st.td.cells.get("i")
+        ok = inc is not None and (nf.poly(inc) - nf.poly(vg.mk("cell0", st.td.name, "i"))) == nf.Poly.const(1)
+        ctx.ob("C01.g", f"{env.name}._step:counter-i", ok, st.where, "i' = i + 1" if ok else f"the step counter is not advanced by exactly one: i' = {vg.show(inc, 3) if inc is not None else 'unchanged'}",
+               construct=f"{st.fi.qualname}:i:increment")
+
+
+def rule_k(ctx: Ctx, env: EnvA):
+    """C01.k initial mask of the incremental-mask envs (their _step only ever removes entries, so
+    whatever the reset mask offers or hides stays so)."""
+    rs = env.slot("_reset")
+    am = rs.cell("action_mask")
+    name = env.name
+    ok, why = None, ""
+    if name in ("TSPEnv", "ATSPEnv"):
+        ok = nf.kleene(am, lambda n: None) is True
+        why = "every node is offered at the first step"
+    elif name == "MTSPEnv":
+        st_ = nf.strip(am)
+        ok = st_.op == "store" and nf.kleene(st_.args[0], lambda n: None) is True and vg.is_const(st_.args[2], 0) and any(vg.is_const(x, 0) for x in (st_.args[1].args if st_.args[1].op == "tuple" else [st_.args[1]]))
+        why = "all cities offered, the depot (column 0) is not"
+    elif name == "PDPEnv":
+        td_cell = rs.cell("to_deliver")
+        alts_ = [a for g, a in _alts(am)]
+        default = [a for a in alts_ if any(n is td_cell for n in vg.walk(a))]
+        okd = False
+        for a in default:
+            a0 = nf.strip(a)
+            if a0.op == "store" and vg.is_const(a0.args[2], False):
+                c = nf._connective(nf.strip(a0.args[0], True))
+                okd = c is not None and c[0] == "and" and any(nf.strip(k, True) is nf.strip(td_cell, True) for k in c[1]) and \
+                    any(vg.is_const(x, 0) for x in (a0.args[1].args if a0.args[1].op == "tuple" else [a0.args[1]]))
+        forced = [a for a in alts_ if a not in default]
+        okf = all(nf.strip(a).op == "store" and vg.is_const(nf.strip(a).args[2], False) for a in forced)
+        ok = bool(default) and okd and okf
+        why = "default start: only pickups (to_deliver) are offered and the depot is closed; forced start: only the depot is offered"
+    elif name == "MDCPDPEnv":
+        st_ = nf.strip(am)
+        ok = st_.op == "store" and nf.kleene(st_.args[0], lambda n: None) is False and vg.is_const(st_.args[2], 1)
+        why = "only the first depot is offered at the first step"
+    if ok is not None:
+        ctx.ob("C01.k", f"{name}._reset:initial-mask", bool(ok), rs.where, why if ok else f"initial mask is not as specified ({why}): {vg.show(am, 4)[:200]}",
+               construct=f"{rs.fi.qualname}:initial-mask")
+
+
 def run(ctx: Ctx):
+    registries = {
+        "context": _registry(ctx, "rl4co/models/nn/env_embeddings/context.py", "env_context_embedding"),
+        "init": _registry(ctx, "rl4co/models/nn/env_embeddings/init.py", "env_init_embedding"),
+        "dynamic": _registry(ctx, "rl4co/models/nn/env_embeddings/dynamic.py", "env_dynamic_embedding"),
+    }
+    if min(len(v) for v in registries.values()) < 10:
+        raise AnalysisError("embedding registries not found")
     for cname, (path, family) in T.ENVS.items():
         env = EnvA(ctx.repo, path, cname)
         rule_a(ctx, env, family)
@@ -363,6 +485,8 @@ def run(ctx: Ctx):
         rule_e(ctx, env)
         rule_f(ctx, env)
         rule_h(ctx, env)
+        rule_g(ctx, env, registries)
+        rule_k(ctx, env)
 
 
 def run_thorough(ctx: Ctx):
